@@ -132,6 +132,9 @@ def _parse_output(res, out, rc, simulating):
     m = re.search(r"Invariant (\S+) is violated", out)
     if m:
         res.violated, res.error_kind = m.group(1), "invariant"
+    m = re.search(r"The invariant of (\S+) is equal to FALSE", out)
+    if m and not res.violated:
+        res.violated, res.error_kind = m.group(1), "invariant"
     m = re.search(r"Action property (\S+) is violated", out)
     if m and not res.violated:
         res.violated, res.error_kind = m.group(1), "property"
